@@ -6,6 +6,7 @@ SPEC['C01'] = ('Top-down require returns what a from-scratch build would return'
    'partial: a recorded resource dependency whose checker reports Inconsistent ends validation with "inconsistent" (no reuse)'),
 ], 'The full statement is proved for the class spelled out in the hypotheses of C01_incremental_equals_scratch (no target twice per execution, direct require of the generator before reading its product, exact write checkers, total stampers); programs outside that class (repeated targets, transitive generator requires, coarse write checkers) are decided by the correspondence run and the fresh-instance oracle.')
 SPEC['C02'] = ('Top-down build does no unnecessary work', ['Local', 'Local2', 'History', 'ExecInv', 'ExecSession', 'Justify', 'Cert', 'Stable', 'NoBug4', 'Sim', 'NoAbort', 'Final', 'Valid', 'Idem', 'C01Witness', 'SimAll', 'BuJust', 'ExecJust', 'Mid'], [
+  ('C02_zsession_conservative', 'Mid', 'run_zsession_plain', 'model hygiene: the runner for a Session that is used on after a caught abort (correspondence streams same_session / same_abort) is run_session as long as no build aborts'),
   ('C02_msession_conservative', 'Mid', 'run_msession_plain', 'model hygiene: the session-with-external-edits runner used by the correspondence streams td_mid / mid_session is run_session when there is no edit, so the session theorems apply to its edit-free cases'),
   ('C02_executions_justified_any_session', 'ExecJust', 'session_executions_justified',
    'GLOBAL "only if it has never completed before or a recorded dependency is reported inconsistent by its own checker": for ALL programs, checkers, fuel, stores and ALL sessions (requires and bottom-up builds in any mix, completed or aborted): every execution start in the event stream comes directly after a top-down dependency check that did not say consistent, or the task was scheduled earlier in the session (and every scheduling comes directly after a check of that task that did not say consistent), or the task had no output when the session began, or an execution of it started earlier in the session (excluded by C07)'),
@@ -79,6 +80,7 @@ SPEC['C08'] = ('Recorded dependencies are exactly those of the latest execution'
 ], 'PARTIAL: exactness over whole executions is decided by the store-dump correspondence and the op-log oracle.')
 SPEC['C09'] = ('Consistency is decided by the dependency checker on a timely stamp', ['Local', 'Local2', 'Justify', 'BuJust', 'TdForward', 'ExecJust', 'Mid'], [
   ('C09_failed_check_then_execution_with_mid_session_edits', 'Mid', 'msession_failed_check_then_execution', 'the same for sessions during which resources change from outside (the session contract broken)'),
+  ('C09_executions_justified_session_reused_after_abort', 'Mid', 'zsession_executions_justified', 'the same when the Session is used on after a caught abort'),
   ('C09_executions_justified_with_mid_session_edits', 'Mid', 'msession_executions_justified', 'the same for sessions during which resources change from outside'),
   ('C09_failed_check_then_execution_any_session', 'TdForward', 'session_failed_check_then_execution', 'GLOBAL "an inconsistent dependency always causes re-execution when its owner is validated": for ALL programs, checkers, fuel, stores and ALL sessions (any mix of requires and bottom-up builds, completed or aborted): a top-down dependency check whose checker did not say consistent (inconsistent, or failed) is never the last event and the event directly after it is the start of a task execution -- no further check, no reuse'),
   ('C09_failed_check_executes_owner', 'TdForward', 'mc_failed_check_executes_owner', 'which task: when the validation of the recorded dependencies of t answers inconsistent, the failing check end is the last event, it belongs to one of the recorded dependencies of t, and make_task_consistent continues by executing t from that world (first event EExecStart t)'),
@@ -95,6 +97,7 @@ SPEC['C16'] = ('Build behaviour is a deterministic function of the history', ['S
    'the only places where the code iterates unordered containers (the two change sets of reorder_nodes, the bottom-up queue) sort by unique ranks: the result is independent of the arrival order'),
 ], 'The model is a function of the history by construction; the runtime part (hash seeds, processes) is decided by two-process replay.')
 SPEC['C18'] = ('Checker errors during validation never cause stale reuse and are reported', ['Local', 'ErrRep', 'BuJust', 'Justify', 'TdForward', 'Mid'], [
+  ('C18_errors_reported_session_reused_after_abort', 'Mid', 'zsession_errors_reported', 'never swallowed, also when the Session is used on after a caught abort'),
   ('C18_errors_reported_with_mid_session_edits', 'Mid', 'msession_errors_reported', 'never swallowed, also in sessions during which resources change from outside'),
   ('C18_td_failed_check_then_execution_any_session', 'TdForward', 'session_failed_check_then_execution', 'GLOBAL top-down "treated as inconsistent, so its task is re-executed, never reuse": in ANY session a top-down dependency check that ends with a checker ERROR (or with inconsistent) is directly followed by the start of a task execution; the task is the owner (C18_td_failed_check_executes_owner)'),
   ('C18_td_failed_check_executes_owner', 'TdForward', 'mc_failed_check_executes_owner', 'the owner of the failing dependency is the task that is executed next'),
@@ -105,6 +108,7 @@ SPEC['C18'] = ('Checker errors during validation never cause stale reuse and are
   ('C18_bu_error', 'Local', 'try_schedule_error', 'bottom-up: an erring checker pushes the error and schedules the task'),
 ], 'For arbitrary checker records and worlds.')
 SPEC['C19'] = ('An aborted build leaves the Pie instance usable and sound', ['Local', 'History', 'ExecInv', 'ExecSession', 'Cert', 'Stable', 'NoBug4', 'NoBug4All', 'NoReentry', 'NoBugAll', 'Sim', 'Final', 'Findings', 'SimAll', 'Mid'], [
+  ('C19_store_invariants_session_reused_after_abort', 'Mid', 'zsession_store_invariants', 'the store invariants (hence no node-missing internal error) also survive a Session that is used on after caught aborts, with or without external edits in between'),
   ('C19_store_invariants_with_mid_session_edits', 'Mid', 'msession_store_invariants', 'the store invariants (and hence: no node-missing internal error) survive sessions during which resources change from outside, from any store satisfying them'),
   ('C19_no_internal_error_any_history', 'NoBugAll', 'no_internal_error_any_history', 'for ALL programs, checkers, fuel and ALL histories -- top-down requires and bottom-up builds in any mix, any number of aborted builds at any point: every build either completes or aborts for a user-level reason (task panic, cyclic dependency, hidden dependency, overlapping write); none of the internal "BUG" panics (check of a reserved dependency, no output for a consistent task, no dependency found at update, edge without data, no output for an unaffected task, node missing) can occur; the store invariants and "a reserved edge only leaves a task without output" hold in every reachable state'),
   ('C19_store_invariants_any_history', 'NoBug4All', 'history_no_bug4', 'for ALL programs, checkers and histories, top-down, bottom-up and mixed, with any number of aborted builds at any point: the instance is left with a well-formed store (acyclic, gap-free ranks, typed edges, single writer) and never with a "node missing" internal error'),
